@@ -113,7 +113,8 @@ fn is_canonical_unbounded(a: &Aff, n: usize) -> bool {
 
 pub fn run_case(ctx: &Ctx, case: u64, ev: &mut Ev) {
     let mut rng = Rng::derive(ctx.seed, "C15", case);
-    let n = 1 + rng.below(4);
+    rng.big = ctx.tier == crate::Tier::Thorough && rng.chance(0.2);
+    let n = 1 + rng.below(if rng.big { 6 } else { 4 });
     let (p, near_miss) = system(&mut rng, n);
     let m = p.mat.len();
     let desc = json!({"n": n, "P": p.json()});
